@@ -62,6 +62,16 @@ func allKindsTxs(g *lib.ChainGen, version string, atLeast int) ([]core.Transacti
 		TransactionHash: lib.F(0x11aa0000 + uint64(g.R.Intn(1<<30)))}
 	txs = append(txs, l1)
 	rcs = append(rcs, g.GenReceipt(l1))
+	if allowBadUTF8 && len(rcs) > 1 {
+		// Go strings are arbitrary bytes: a revert reason that is not valid UTF-8, in a valid block
+		rcs[1].Reverted = true
+		rcs[1].RevertReason = "execution failed: \xff\xfe (\xc3"
+		// an L1 handler that is NOT the last transaction of its block (index code paths that treat
+		// the handler specially must keep counting afterwards)
+		k := len(txs) - 1
+		txs[0], txs[k] = txs[k], txs[0]
+		rcs[0], rcs[k] = rcs[k], rcs[0]
+	}
 	return txs, rcs
 }
 
